@@ -283,6 +283,8 @@ fn scenarios(prop: &str, rng: &mut Rng, thorough: bool) -> Vec<Scenario> {
                 for k in ["lzma2w", "lzipw"] {
                     v.push(Scenario { name: format!("{k}-exactunits-{size}-w{workers}"), kind: k, input: d2.clone(), writes: vec![whole / 2, whole - whole / 2], ..base.clone() });
                     v.push(Scenario { name: format!("{k}-flushfinish-{size}-w{workers}"), kind: k, input: data.clone(), writes: vec![data.len()], flush_at: Some(0), ..base.clone() });
+                    // flush() on a writer that has not been given a byte yet (an empty write first), then the data
+                    v.push(Scenario { name: format!("{k}-flushfirst-{size}-w{workers}"), kind: k, input: data.clone(), writes: vec![0, data.len()], flush_at: Some(0), ..base.clone() });
                 }
             }
             if (prop == "C08" || prop == "C10") && size > 0 {
